@@ -54,6 +54,8 @@ pub(crate) struct Track {
 	playback_state_manager: PlaybackStateManager,
 	temp_buffer: Vec<Frame>,
 	internal_buffer_size: usize,
+	/// The sample rate the effects were last told about.
+	sample_rate: u32,
 }
 
 impl Track {
@@ -74,6 +76,7 @@ impl Track {
 	}
 
 	pub fn init_effects(&mut self, sample_rate: u32) {
+		self.sample_rate = sample_rate;
 		for effect in &mut self.effects {
 			effect.init(sample_rate, self.internal_buffer_size);
 		}
@@ -83,6 +86,7 @@ impl Track {
 	}
 
 	pub fn on_change_sample_rate(&mut self, sample_rate: u32) {
+		self.sample_rate = sample_rate;
 		for effect in &mut self.effects {
 			effect.on_change_sample_rate(sample_rate);
 		}
@@ -116,7 +120,13 @@ impl Track {
 		}
 	}
 
-	pub fn on_start_processing(&mut self) {
+	pub fn on_start_processing(&mut self, sample_rate: u32) {
+		// the effects were initialized on another thread with the sample rate
+		// that was current at the time. if the sample rate changed before this
+		// track reached the renderer, the effects haven't heard about it yet
+		if self.sample_rate != sample_rate {
+			self.on_change_sample_rate(sample_rate);
+		}
 		self.read_commands();
 		self.sounds.remove_and_add(|sound| sound.finished());
 		for (_, sound) in &mut self.sounds {
@@ -125,7 +135,7 @@ impl Track {
 		self.sub_tracks
 			.remove_and_add(|sub_track| sub_track.should_be_removed());
 		for (_, sub_track) in &mut self.sub_tracks {
-			sub_track.on_start_processing();
+			sub_track.on_start_processing(sample_rate);
 		}
 		for effect in &mut self.effects {
 			effect.on_start_processing();
